@@ -71,7 +71,7 @@ DUP_NAMES = [["x", "x"], ["a", "b", "a"], ["a", "a", "a"], ["x", "x_fixed_000", 
 VERDICTS = ["bool", "bool", "bool", "numpy", "int", "match", "str", "list"]
 
 
-def verdict(kind, accept):
+def as_verdict(kind, accept):
     """the predicate's answer in one of the forms callers use: what counts is its truth value"""
     import re
     import numpy
@@ -128,8 +128,10 @@ def _san(c, excel):
     return c
 
 
-def gen_table(rng, native):
+def gen_table(rng, native, dup_names=None):
     r = rng.random()
+    if dup_names is not None and r < 0.7:
+        r = 0.9          # a stream in "dup mode": most of its tables repeat the same duplicated column names
     if r < 0.45:
         grid, info = c02.wf_grid(rng, native=native)
         kind = "wf"
@@ -144,7 +146,7 @@ def gen_table(rng, native):
     elif r < 0.93:
         # tables that repeat the same duplicated column names (a lenient fixer renames them, the default one fails)
         t = rng.random() < 0.3
-        names = list(rng.choice(DUP_NAMES))
+        names = list(dup_names if dup_names is not None else rng.choice(DUP_NAMES))
         units = [rng.choice(["m", "-", "text"]) for _ in names]
         data = [[("v" if u == "text" else rng.choice(["1", "2.5", "-"])) for u in units] for _ in range(rng.randint(0, 2))]
         if t:
@@ -170,6 +172,7 @@ def gen_stream(rng, native):
     """-> list of rows (lists). Blocks are separated by a blank row, or by nothing at all."""
     rows = []
     kinds = []
+    dup_names = rng.choice(DUP_NAMES) if rng.random() < 0.15 else None
     r0 = rng.random()
     if r0 < 0.3:
         rows += [["author:", "x"], ["date:", "2020"]][: rng.randint(1, 2)]
@@ -189,7 +192,7 @@ def gen_stream(rng, native):
     for _ in range(rng.choice([1, 2, 3, 3, 4, 5, 6])):
         r = rng.random()
         if r < 0.62:
-            grid, kind = gen_table(rng, native)
+            grid, kind = gen_table(rng, native, dup_names)
             rows += grid
             kinds.append("table:" + kind)
         elif r < 0.74:
@@ -445,7 +448,7 @@ def one_case(rng, out, seed, idx, tmp, ops, pend, model_ok):
 
     def pred(bt, name):
         rec.append((bt.name, name))
-        return verdict(vk, p(bt, name))
+        return as_verdict(vk, p(bt, name))
 
     F = run_read(src, to, pred, tracker, fx)
     rec_f = list(rec)
